@@ -567,7 +567,20 @@ def main(res, tier, rng, replay):
     for e in errors:
         res.broken.append(('translator', 'py2lean', e))
     t0 = _t.time()
-    res.proof_stage('Py4hwV.Props.C14', OBLIGATIONS, extra_modules=['Py4hwV.Drv.Proto'])
+    proved = res.proof_stage('Py4hwV.Props.C14', OBLIGATIONS, extra_modules=['Py4hwV.Drv.Proto'])
+    checker = ''
+    if proved and tier != 'quick':
+        # independent re-check of the compiled declarations with the external kernel checker
+        import common as _c
+        lk = _c._lock()
+        try:
+            pc = subprocess.run(['lake', 'env', 'leanchecker', 'Py4hwV.Props.C14', 'Py4hwV.Proofs.C14Lemmas', 'Py4hwV.Proofs.C14Rat',
+                                 'Py4hwV.Lib.Fxp', 'Py4hwV.Lib.FxpSpec'], cwd=LEAN, capture_output=True, text=True, timeout=1500)
+        finally:
+            lk.close()
+        checker = ' && lake env leanchecker <C14 modules>'
+        if pc.returncode != 0:
+            res.broken.append(('proof', 'leanchecker', (pc.stdout + pc.stderr)[-400:]))
     n_obl, n_dis, ax = res.cov['obligations'], res.cov['discharged'], set(res.cov.get('axioms_seen', []))
     # helper agreement lives in its own module: it imports C12's development (helper.py: FPNum, IEEE …); kept apart so
     # that the block theorems do not depend on it
@@ -576,7 +589,7 @@ def main(res, tier, rng, replay):
     res.cov['discharged'] += n_dis
     res.cov['axioms_seen'] = sorted(ax | set(res.cov.get('axioms_seen', [])))
     res.cov['checker_cmd'] = (f'cd lean && lake build Py4hwV.Props.C14 Py4hwV.Props.C14Helper && #print axioms on '
-                              f'{len(OBLIGATIONS) + len(HELPER_OBLIGATIONS)} obligations')
+                              f'{len(OBLIGATIONS) + len(HELPER_OBLIGATIONS)} obligations' + checker)
     res.notes.append(f'S0+S1 {_t.time() - t0:.1f}s')
     t0 = _t.time()
     if ok:
